@@ -45,6 +45,16 @@ PROPS = {
                     "full walk (with timestamps) compared with the walk before; device raises on any write; bytes compared after close"},
     "C11": {"suites": ["marks"],
             "rule": "sessions mount+history+close with the exact ordered write log; image rebuilt at every prefix; FAT12/16/32 x 1..3 FATs; empty and shuffled histories"},
+    "C12": {"suites": ["crash", "volume"],
+            "rule": "crash: histories over nested trees (makedir/makedirs/create/writebytes/appendbytes/remove/removedir/removetree/copy/move/setinfo/"
+                    "create(wipe) + file-object sessions open/write/truncate/close; a structured family that removes and adds entries in a directory "
+                    "spanning several sectors above a sub-directory) x FAT12 (1- and 4-sector clusters)/FAT16/FAT32 (thorough: 1-3 FATs, offset, "
+                    "pyfatfs-formatted volumes); mount and close are operations too.  Crash points: every write boundary and every sector boundary "
+                    "inside every write, skipping points whose image equals the previous one; each distinct image mounted read-only+lazy by the real "
+                    "code, every protected file checked (exists, listed, bytes).  Every write of every log classified against the premises of "
+                    "Props.C12 (write:* counters).  model:torn-fat-tables = torn FAT copies decoded by Model.Crash vs pyfatfs' parser.",
+            "assumptions": ["sectors of one write reach the device in ascending order (a crash leaves a prefix of the write)",
+                            "durable = reads back from the image as it was before the operation's first write (read-only lazy mount by the real code)"]},
     "C13": {"suites": ["hostile", "volume"],
             "rule": "hostile: ~70 structure-aware mutation kinds (chains: cycle/cross-link/out-of-range/into-free/bad; first clusters; directory loops; "
                     "long-name damage; 20 boot-sector field mutations; truncated devices; random flips) x FAT12/16/32 base images; mount (lazy) + 36 lookups/"
@@ -131,6 +141,17 @@ MANIFEST_TEXT = {
                     "Real sessions: exact write log, image rebuilt at every prefix, independent mark test.",
             "note": _NOTE + "Write-call granularity (torn writes are C12's subject). The protocol model is tied to the code by the prefix oracle, not by a trace proof.",
             "technique": "Lean 4 proof over the write-order protocol + translated mask arithmetic; prefix reconstruction of real write logs"},
+    "C12": {"text": "Theorems (Props.C12), for every image, write log, crash point (any number of complete writes + any number of bytes of the next), "
+                    "FAT width and valid geometry: each byte of a crash image is the durable byte or one a write puts there; a FAT copy torn between any "
+                    "number of whole-table writes decodes every entry on which those tables agree (FAT12 entries sharing bytes / straddling sectors "
+                    "included); the tables the FAT machine can flush agree with the durable table on every chain that is not the target and the "
+                    "allocator never hands out an owned cluster; hence, if each write of the log is such a table write or misses the first FAT copy "
+                    "and the chain's clusters, the follower finds the chain and the bytes along it are the durable bytes at every crash point; path "
+                    "resolution over unchanged directory bytes is unchanged for any scan function. That real write logs meet the premise, that every "
+                    "crash image mounts, and the behaviour of the real directory reader are decided by mounting every distinct crash image with the real code.",
+            "note": _NOTE + "Write-prefix crash model (no reordering of sectors inside a write). Known finding D27: a directory that loses an entry is rewritten "
+                    "compacted; cut inside that rewrite, files below its sub-directories can become unreachable although their own directory is not rewritten.",
+            "technique": "Lean 4 proof (crash-image frame, torn-FAT mixture, FAT-machine frame) + exhaustive crash-point enumeration on real write logs"},
     "C13": {"text": "Theorems for every table content and start cluster: the chain follower (the library's only unbounded loop) terminates, yields at most len+1 "
                     "clusters, and ends in the chain or a PyFATException; the directory scan is total with library errors only; decoders total. Exception classes "
                     "of the glue decided by structure-aware mutants on the real code under a deterministic work counter.",
